@@ -142,7 +142,7 @@ func ballProfile(thorough bool) *profile {
 	p := &profile{
 		titles: []string{"", "Title test", "a & b <c>"}, copyrights: []string{"", "Copyright test", "© & co"},
 		langs:      []string{"", "en", "fr", "fr-FR", "ja", "no", "zh", "de", "zh-Hans"},
-		frameRates: []int{0, 24, 25, 30}, tickRates: []int{0, 1, 90000, 10000000},
+		frameRates: []int{0, 24, 25, 30, 120}, tickRates: []int{0, 1, 90000, 10000000},
 		forests: allForests(), styleAttrs: ballAttrs(), regionAttrs: ballAttrs(), cueAttrs: ballAttrs(), runAttrs: ballAttrs(),
 		nregions: []int{0, 1, 2}, refs: true, ncues: []int{1, 0, 2}, starts: startsMs, rateInst: true, ends: []int{0, 1, 2, 3, 4, 5},
 		shapes: allShapes, texts: allTexts, windents: 4,
@@ -455,7 +455,7 @@ func firstRun(lines []ttml.Line, bare [][]bool) *ttml.Run {
 
 // ---------- time sweep ----------
 
-var sweepRates = [][2]int{{0, 0}, {25, 0}, {24, 0}, {30, 0}, {0, 1}, {0, 1000}, {0, 90000}, {0, 10000000}, {25, 90000}, {30, 1}}
+var sweepRates = [][2]int{{0, 0}, {25, 0}, {24, 0}, {30, 0}, {120, 0}, {60, 0}, {1, 0}, {1000, 0}, {0, 1}, {0, 1000}, {0, 90000}, {0, 10000000}, {25, 90000}, {30, 1}}
 var sweepMsExtra = []int64{59999, 60000, 3599999, 3600000, 86399999, 359999999, 360000000, 1234567, 36000000, 4102}
 
 func genTimes(x *explore.C, nms, nfr int) Case {
@@ -1145,7 +1145,7 @@ func init() {
 		ID: "C03", Level: "exploration",
 		Rule: "a case = (ground-truth TTML model, rendering choices) chosen by the E1 explorer. Model: title, copyright, xml:lang, frameRate, tickRate, styles with parent links over every forest on <=3 nodes, regions with optional style reference, cues (<p begin end>) with style/region references and inline tts:* attributes, lines of runs with style references and inline attributes. Rendering: each boundary in every TTML time-expression syntax that expresses the instant exactly (hh:mm:ss, .f/.ff/.fff, hh:mm:ss:ff, h, m, s, ms, f, t), <br/> between spans / inside the preceding or following span / shared span / first / last / doubled, bare character data vs <span>, indentation and layout, namespace prefix variants, <br/> form, escaping form. Enumeration: exhaustive time sweep, three core products (lines, references, attributes) and every case within B deviations of the baseline over all choice points. Read: ReadFromTTML(render(model)) must denote the model (instants exact; frames/ticks floor or nearest ns). Write: WriteToTTML(model) with each indent option must denote the model to the library reader and to an independent encoding/xml token-walk decoder. Non-trivial = non-baseline case, distinct by (model, rendering)",
 		Scope: map[core.Tier]string{
-			core.Quick:    "time sweep (every ms of [0,3 s), every frame and tick count in [0,1000) + tables, 10 (frameRate, tickRate) pairs, all exact syntaxes) + lines core (11 line shapes x 2 texts x plain/attr x bare/span x br placement x 2 indents x layout x 2 br forms x 2 prefix variants) + refs core (21 forests x <=2 regions x all style/region references) + attrs core (8 attribute subsets on style, region, p, span x 3 namespace variants) + deviation ball B=2 (<=2 cues; 24 attributes, 22 texts, 9 languages, 4 frame rates, 4 tick rates, 17+ instants)",
+			core.Quick:    "time sweep (every ms of [0,3 s), every frame and tick count in [0,1000) + tables, 14 (frameRate, tickRate) pairs incl. 60/120/1000 fps, all exact syntaxes) + lines core (11 line shapes x 2 texts x plain/attr x bare/span x br placement x 2 indents x layout x 2 br forms x 2 prefix variants) + refs core (21 forests x <=2 regions x all style/region references) + attrs core (8 attribute subsets on style, region, p, span x 3 namespace variants) + deviation ball B=2 (<=2 cues; 24 attributes, 22 texts, 9 languages, 5 frame rates, 4 tick rates, 17+ instants)",
 			core.Thorough: "time sweep over [0,20 s) and frame/tick counts [0,10000) + larger cores (4 indents, 3 br forms, 4 write indents) + deviation ball B=3 (<=3 cues)",
 		},
 		Assumptions: []string{"Go toolchain and standard library (encoding/xml is used generically by the independent decoder)", "independent reference codec engine/ref/ttml",
